@@ -213,7 +213,7 @@ class Ctx:
         return path
 
     def violation(self, text, replay_obj, name=None):
-        name = name or "v%03d" % (len(self.violations) + 1)
+        name = name or ("replayed%03d" if getattr(self, "replaying", None) else "v%03d") % (len(self.violations) + 1)
         if len(self.violations) >= 12:          # enough to look at; keep counting
             self.violations.append((text, self.violations[-1][1]))
             return self.violations[-1][1]
